@@ -123,16 +123,18 @@ middle of the stream when it reaches the loop end.  On every bracket structure o
 fragment it computes exactly what the structured two-pass encoder `Codec.encL` computes, which only
 ever appends (for a loop with a break: encode the part after the break once to measure it, emit
 `LPB o` / `LPBL oo`, encode it again) — provided the result is shorter than 64 KiB. -/
-theorem C02_convert_structured_eq (nS nM : Nat) (ts : List Node) (hl : linL ts = true) (e' : Enc)
-    (h : encL nS nM ts {} = .ok e') (hb : e'.out.length < 65536) :
+theorem C02_convert_structured_eq (nS nM : Nat) (ts : List Node) (hl : linL ts = true) (hk : brkOkL false ts = true)
+    (e' : Enc) (h : encL nS nM ts {} = .ok e') (hb : e'.out.length < 65536) :
     convertTrack nS nM (flatL ts) = .ok e'.out :=
-  convert_structured_eq nS nM ts hl e' h hb
+  convert_structured_eq nS nM ts hl hk e' h hb
 
-/-- **Counted loops with and without break, nested to any depth** (leaves in the linear fragment,
+/-- **Counted loops with any number of breaks, nested to any depth** (leaves in the linear fragment,
+further break markers only behind a first break of the same loop — `brkOkL` —, no calls,
 terminated by `FINISH`, stream shorter than 64 KiB).  The interpreter plays exactly the loop
 expansion `expL`: each body `passes n` times (`n mod 256`, once if that is `≤ 1`), the part after
-the break dropped on the last pass. -/
-theorem C02_codec_roundtrip_loops (nS nM : Nat) (ts : List Node) (hl : linL ts = true) (farg : Nat) :
+the FIRST break dropped on the last pass. -/
+theorem C02_codec_roundtrip_loops (nS nM : Nat) (ts : List Node) (hl : linL ts = true) (hk : brkOkL false ts = true)
+    (hnc : noCallL ts = true) (farg : Nat) :
     ∃ e', encL nS nM ts {} = .ok e' ∧
       (e'.out.length + 1 < 65536 →
         convertTrack nS nM (flatL ts ++ [⟨mds_FINISH, farg⟩]) = .ok (e'.out ++ [mds_FINISH]) ∧
@@ -140,17 +142,21 @@ theorem C02_codec_roundtrip_loops (nS nM : Nat) (ts : List Node) (hl : linL ts =
           ∃ n, ∀ fuel, fuel > n →
             run (e'.out ++ [mds_FINISH]) base mj maxTicks fuel { pc := 0, lastNote := ln, lastRest := lr } =
               (expL nS nM ts, .finished)) := by
-  obtain ⟨e', h1, h2⟩ := codec_roundtrip_loops nS nM ts hl farg
+  obtain ⟨e', h1, h2⟩ := codec_roundtrip_loops nS nM ts hl hk hnc farg
   refine ⟨e', h1, fun hb => ⟨(h2 hb).1, fun base mj maxTicks ln lr hlen => ?_⟩⟩
   exact ((h2 hb).2 base mj ln lr).run_eq maxTicks hlen
 
-/-- **The general single track**: a bracket structure `ta` (nested counted loops with and without
-break over the linear fragment), the loop point at loop depth 0, a bracket structure `tb`, the
+/-- **The general single track**: a bracket structure `ta` (nested counted loops with ANY NUMBER
+of breaks per loop over the linear fragment: `Node.loopB body tail n` with further break markers
+`Node.xbrk` in `tail`; `brkOkL false` = such markers stand only behind a first break of their own
+loop; `noCallL` = no subroutine calls, they need a chunk around the stream: see
+`C02_track_at_offset_partial`), the loop point at loop depth 0, a bracket structure `tb`, the
 loop-back jump.  `trackBytes eB` = the structured encoding of the two parts followed by the jump
 instruction; if it is shorter than 64 KiB it is what `convert_track` produces, and with the jump
 followed `mj` times the interpreter plays the expansion of `ta`, then the expansion of `tb`
 `mj + 1` times with a loop mark after each of the first `mj`. -/
 theorem C02_codec_roundtrip_track (nS nM : Nat) (ta tb : List Node) (ha : linL ta = true) (hb : linL tb = true)
+    (ka : brkOkL false ta = true) (kb : brkOkL false tb = true) (na : noCallL ta = true) (nb : noCallL tb = true)
     (jarg : Nat) :
     ∃ eA eB, encL nS nM ta {} = .ok eA ∧ encL nS nM tb (afterSegno eA) = .ok eB ∧
       ((trackBytes eB).length < 65536 →
@@ -160,7 +166,7 @@ theorem C02_codec_roundtrip_track (nS nM : Nat) (ta tb : List Node) (ha : linL t
           ∃ n, ∀ fuel, fuel > n →
             run (trackBytes eB) base mj maxTicks fuel { pc := 0, lastNote := ln, lastRest := lr } =
               (expL nS nM ta ++ repeatL mj (expL nS nM tb ++ [Tk.loopMark]) ++ expL nS nM tb, .finished)) := by
-  obtain ⟨eA, eB, hA, hB, h⟩ := codec_roundtrip_track nS nM ta tb ha hb jarg
+  obtain ⟨eA, eB, hA, hB, h⟩ := codec_roundtrip_track nS nM ta tb ha hb ka kb na nb jarg
   refine ⟨eA, eB, hA, hB, fun hlen => ⟨(h hlen).1, fun base mj maxTicks ln lr hmax => ?_⟩⟩
   exact ((h hlen).2 base mj ln lr).run_eq maxTicks hmax
 
@@ -171,7 +177,7 @@ stream of a bracket structure plays its expansion and arrives at its `FINISH` wi
 on entry.  (The bytes do not depend on the offset: prefix independence of the encoder.) -/
 theorem C02_stream_at_offset_partial (nS nM : Nat) (ts : List Node) (hl : linL ts = true) :
     ∃ e', encL nS nM ts {} = .ok e' ∧
-      ∀ (pre : List Nat) (seq : List Nat) (base mj : Nat) (s : St),
+      ∀ (pre : List Nat) (seq : List Nat) (base mj : Nat) (s : St), callsOkL seq base mj ts →
         pre ++ e'.out ++ [mds_FINISH] <+: seq → s.pc = pre.length → s.drum = false →
         ∃ s1, Reach seq base mj s s1 ∧ Frame s s1 ∧ s1.pc = pre.length + e'.out.length ∧
           seq[s1.pc]? = some mds_FINISH ∧ s1.out = (expL nS nM ts).reverse ++ s.out :=
@@ -190,16 +196,62 @@ theorem C02_call_return_partial {seq : List Nat} {base mj : Nat} {e : Enc} {s : 
     ∃ s', Reach seq base mj s s' ∧ Frame s s' ∧ Good (afterPAT e arg) s' (T.reverse ++ O) :=
   ⟨encEv_pat 0 0 e arg, pat_good g arg hp ht hsub⟩
 
-/-! ### Outside the domain: two break markers in one loop (defect D23 found while proving; fixed)
+/-- **A channel track inside a chunk, with subroutine calls** (the three shapes
+`MDSDRV_Track_Writer::end_hook` produces; `Codec.Node.call arg T` = `PAT arg` annotated with the
+tick string of its callee, `callsOkL seq base mj` = every such call finds, through the pointer table
+of `seq` at `base`, a stream that plays `T` and returns — `Codec.SubPlays`, which
+`C02_stream_at_offset_partial` provides for compiled subroutines).  The stream stands at offset
+`pre.length` of `seq`; extra hypothesis for shape (J): the chunk up to the end of the stream is
+shorter than 64 KiB (the interpreter computes the loop-back target modulo 2^16).
+ (J) `ta, SEGNO, tb, JUMP`: entered with the loop-back not yet followed, plays `ta`, then `tb`
+     `mj + 1` times with a loop mark after each of the first `mj`, stops at the jump;
+ (Z) `ta, SEGNO, tb, FINISH` and (F) `ta, FINISH`: entered with an empty call stack, play the
+     expansion and stop at the terminator. -/
+theorem C02_track_at_offset_partial (nS nM : Nat) (ta tb : List Node) (ha : linL ta = true) (hb : linL tb = true) :
+    ∃ eA eB, encL nS nM ta {} = .ok eA ∧ encL nS nM tb (afterSegno eA) = .ok eB ∧
+      (∀ (pre seq : List Nat) (base mj : Nat) (s : St), callsOkL seq base mj ta → callsOkL seq base mj tb →
+        pre ++ trackBytes eB <+: seq → (pre ++ trackBytes eB).length < 65536 →
+        s.pc = pre.length → s.drum = false → s.jumps = 0 →
+        ∃ s', Reach seq base mj s s' ∧ step seq base mj s' = .error .finished ∧
+          s'.out = (expL nS nM ta ++ repeatL mj (expL nS nM tb ++ [Tk.loopMark]) ++ expL nS nM tb).reverse ++ s.out) ∧
+      (∀ (pre seq : List Nat) (base mj : Nat) (s : St), callsOkL seq base mj ta → callsOkL seq base mj tb →
+        pre ++ (eB.out ++ [mds_FINISH]) <+: seq → s.pc = pre.length → s.drum = false → s.calls = [] →
+        ∃ s', Reach seq base mj s s' ∧ step seq base mj s' = .error .finished ∧
+          s'.out = (expL nS nM ta ++ expL nS nM tb).reverse ++ s.out) ∧
+      (∀ (pre seq : List Nat) (base mj : Nat) (s : St), callsOkL seq base mj ta →
+        pre ++ (eA.out ++ [mds_FINISH]) <+: seq → s.pc = pre.length → s.drum = false → s.calls = [] →
+        ∃ s', Reach seq base mj s s' ∧ step seq base mj s' = .error .finished ∧
+          s'.out = (expL nS nM ta).reverse ++ s.out) := by
+  obtain ⟨eA, eB, hA, hB, hJ⟩ := track_j_at nS nM ta tb ha hb
+  obtain ⟨eA', eB', hA', hB', hZ⟩ := track_z_at nS nM ta tb ha hb
+  obtain ⟨eA'', hA'', hF⟩ := track_f_at nS nM ta ha
+  rw [hA] at hA' hA''; injection hA' with hA'; injection hA'' with hA''; subst hA' hA''
+  rw [hB] at hB'; injection hB' with hB'; subst hB'
+  exact ⟨eA, eB, hA, hB, hJ, hZ, hF⟩
 
-`Codec.Node` allows at most one break per loop.  Before repository fix 6595106 that restriction was
-necessary: `convert_track` kept ONE break address per open loop and overwrote it at every `LPB`
+/-- the bytes of the three shapes are what `convert_track` emits (streams shorter than 64 KiB) -/
+theorem C02_track_shapes_convert (nS nM : Nat) (ta tb : List Node) (ha : linL ta = true) (hb : linL tb = true)
+    (ka : brkOkL false ta = true) (kb : brkOkL false tb = true) (arg : Nat)
+    (eA eB : Enc) (hA : encL nS nM ta {} = .ok eA) (hB : encL nS nM tb (afterSegno eA) = .ok eB) :
+    ((trackBytes eB).length < 65536 →
+      convertTrack nS nM (flatL ta ++ [⟨mds_SEGNO, 0⟩] ++ flatL tb ++ [⟨mds_JUMP, arg⟩]) = .ok (trackBytes eB)) ∧
+    (eB.out.length + 1 < 65536 →
+      convertTrack nS nM (flatL ta ++ [⟨mds_SEGNO, 0⟩] ++ flatL tb ++ [⟨mds_FINISH, arg⟩]) = .ok (eB.out ++ [mds_FINISH])) ∧
+    (eA.out.length + 1 < 65536 →
+      convertTrack nS nM (flatL ta ++ [⟨mds_FINISH, arg⟩]) = .ok (eA.out ++ [mds_FINISH])) :=
+  ⟨track_convert nS nM ta tb ha hb ka kb arg eA eB hA hB, track_convert_z nS nM ta tb ha hb ka kb arg eA eB hA hB,
+    track_convert_f nS nM ta ha ka arg eA hA⟩
+
+/-! ### Several break markers in one loop (defect D23 found while proving; fixed)
+
+Before repository fix 6595106 a loop could meaningfully hold only one break: `convert_track` kept ONE break address per open loop and overwrote it at every `LPB`
 event, so of several breaks in the same loop only the LAST was back-patched, while the player
 (`Basic_Player::step_event`, Spec/Expand) leaves the loop at the FIRST break on the last pass;
 `[c / d / e]2` was emitted as `fa a6 01 a8 fc 03 aa fb 02 ff` (plays `c d e c d`).  Every dropped
 `LPB` also overwrote `last_type`, which switched the length disambiguation off exactly as in D4.
 With the fix (`encEv` skips a break when the open loop already has one) the first break is the one
-that is emitted and the dropped ones leave no trace: -/
+that is emitted and the dropped ones leave no trace — `Codec.Node.xbrk`, covered by the theorems
+above (`exDoubleN` below is `exDouble` as a bracket structure): -/
 
 /-- `[c / d / e]2` -/
 def exDouble : List MEv :=
@@ -221,6 +273,15 @@ theorem C02_double_break_fixed :
     run [0xfa, 0xa6, 0x01, 0xa6, 0xfc, 0x04, 0x03, 0xaa, 0xfb, 2, 0xff] 0 0 100 100 { pc := 0 } =
       ([.on 36, .hold, .on 36, .hold, .off, .off, .off, .off, .on 40, .hold, .on 36, .hold, .on 36, .hold], .finished) := by
   decide +kernel
+
+/-- `[c / d / e]2` as a bracket structure: the second break is an `xbrk` in the tail -/
+def exDoubleN : List Node := [.loopB [.ev ⟨0xa6, 2⟩] [.ev ⟨0xa8, 2⟩, .xbrk, .ev ⟨0xaa, 2⟩] 2]
+example : flatL exDoubleN ++ [⟨mds_FINISH, 0⟩] = exDouble := rfl
+example : linL exDoubleN = true ∧ brkOkL false exDoubleN = true ∧ noCallL exDoubleN = true := by decide
+example : expL 0 0 exDoubleN = [.on 36, .hold, .on 38, .hold, .on 40, .hold, .on 36, .hold] := by decide +kernel
+/-- a break marker outside the tail of a `loopB` is not in the domain (`[c]2 /`: the converter has no
+open loop there, `top()` of an empty stack) -/
+example : brkOkL false [.loop [.ev ⟨0xa6, 2⟩] 2, .xbrk] = false := by decide
 
 /-! ### non-vacuity -/
 
@@ -253,7 +314,7 @@ example : (expL 0 0 exLoops).length = 24 + 3 * (24 + 2 * 12) := by decide +kerne
 /-- loops with breaks, nested: `c [ c c / r [ d / r ]2 ]3` -/
 def exBreak : List Node :=
   [.ev ⟨0xa6, 24⟩, .loopB [.ev ⟨0xa6, 24⟩, .ev ⟨0xa6, 24⟩] [.ev ⟨mds_REST, 48⟩, .loopB [.ev ⟨0xa8, 12⟩] [.ev ⟨mds_REST, 12⟩] 2] 3]
-example : linL exBreak = true := by decide
+example : linL exBreak = true ∧ brkOkL false exBreak = true ∧ noCallL exBreak = true := by decide
 /-- the length-less third `c` is followed by the back-patched `fc 0b`, then the rest length `2f` -/
 example : (convertTrack 0 0 (flatL exBreak ++ [⟨mds_FINISH, 0⟩])).toOption =
     some [0xa6, 0x17, 0xfa, 0xa6, 0x17, 0xa6, 0xfc, 0x0b, 0x2f, 0xfa, 0xa8, 0x0b, 0xfc, 0x03, 0x0b, 0xfb, 2, 0xfb, 3, 0xff] := by
@@ -272,7 +333,7 @@ example : ∃ (seq : List Nat) (t : Nat) (T : List Tk) (s' : St),
   have hc : encL 0 0 [.ev ⟨0xa6, 24⟩] {} = .ok { out := [0xa6, 0x17], lastNote := 0x17, lastType := 0xa6 } := rfl
   rw [hc] at he'; injection he' with he'; subst he'
   have hsub := h [0xfe, 0x00, 0xff, 0x00, 0x02] [0xfe, 0x00, 0xff, 0x00, 0x02, 0xa6, 0x17, 0xff] 3 0
-    (List.prefix_refl _)
+    (by simp [callsOkL, Node.callsOk]) (List.prefix_refl _)
   obtain ⟨_, s', r, _, g⟩ := C02_call_return_partial (seq := [0xfe, 0x00, 0xff, 0x00, 0x02, 0xa6, 0x17, 0xff])
     (base := 3) (mj := 0) (good_init none none) 0 (by decide) (t := 5) (by decide) hsub
   refine ⟨_, 5, _, s', by decide, hsub, by simp [ticks, expL, Node.exp], r, ?_, ?_⟩
@@ -286,7 +347,7 @@ example : ∃ (seq : List Nat) (t : Nat) (T : List Tk) (s' : St),
 /-- a looping track with a loop (with break) after the loop point: `c c L [ c / r ]2` -/
 def exTrackA : List Node := [.ev ⟨0xa6, 24⟩, .ev ⟨0xa6, 24⟩]
 def exTrackB : List Node := [.loopB [.ev ⟨0xa6, 24⟩] [.ev ⟨mds_REST, 24⟩] 2]
-example : linL exTrackA = true ∧ linL exTrackB = true := by decide
+example : linL exTrackA = true ∧ linL exTrackB = true ∧ brkOkL false exTrackB = true ∧ noCallL exTrackB = true := by decide
 example : (convertTrack 0 0 (flatL exTrackA ++ [⟨mds_SEGNO, 0⟩] ++ flatL exTrackB ++ [⟨mds_JUMP, 0⟩])).toOption =
     some [0xa6, 0x17, 0xa6, 0x17, 0xfa, 0xa6, 0x17, 0xfc, 0x03, 0x17, 0xfb, 2, 0xf5, 0xff, 0xf5] := by decide +kernel
 
